@@ -212,7 +212,9 @@ def toidentifier(value):
             return "neginf"
         if numpy.isnan(value):
             return "nan"
-        return value.dtype.kind + "0x" + "".join(map(hex, value.tobytes()[::-1])).replace("0x", "")
+        # two hex digits per byte: unpadded digits map distinct values, e.g. the
+        # bytes 3f 01 10 00 and 3f 11 00 00, to the same identifier
+        return value.dtype.kind + "0x" + value.tobytes()[::-1].hex()
     elif isinstance(value, numpy.complexfloating):
         return value.dtype.kind + toidentifier(value.real) + toidentifier(value.imag)
     else:
